@@ -5,26 +5,34 @@ def plan(ctx):
     obs = []
     RU = ["erasurecode", "helpers", "preproc", "postproc", "crc32alt", "be_null", "be_xor", "be_isal_common", "be_isal_vand", "be_isal_cauchy", "be_rsvand",
           "galois_stubbed", "gf16_ref", "rsvand", "xor_code", "xor_hd_code", "null_code", "gf8", "env", "zcrc32"]
-    for excl in (0, 1):
-        depth = 5 if not thorough else 7
-        defs = dict(DEPTH=depth)
+    import itertools
+    T = ["liberasurecode_backend_instance_register", "liberasurecode_backend_instance_unregister", "liberasurecode_backend_alloc_desc", "liberasurecode_backend_instance_get_by_desc"]
+    for excl in (0,):
+        depth = 4 if not thorough else 6
+        defs = dict(DEPTH=depth, SLOTS=3)
         if excl: defs["EXCL_WRAP"] = None
         obs.append(Ob(id=f"registry-history-d{depth}" + ("-excl-wrap" if excl else ""), harness="c14.c", defs=defs, units=RU, unwind=8, unwindset={"liberasurecode_backend_alloc_desc.0": 8},
-                      timeout=1800, mem_gb=8, sample={"symbolic": f"counter start value, {depth} x (operation, slot, lookup key)", "slots": 4, "excluded_input": "counter within reach of INT_MAX" if excl else None},
-                      targets=["liberasurecode_backend_instance_register", "liberasurecode_backend_instance_unregister", "liberasurecode_backend_alloc_desc", "liberasurecode_backend_instance_get_by_desc"]))
-        defs = dict(INDUCTIVE=None, DEPTH=1)
-        if excl: defs["EXCL_WRAP"] = None
-        obs.append(Ob(id="registry-inductive-step" + ("-excl-wrap" if excl else ""), harness="c14.c", defs=defs, units=RU, unwind=8, unwindset={"liberasurecode_backend_alloc_desc.0": 8},
-                      timeout=1800, mem_gb=8, sample={"symbolic": "arbitrary well-formed registry over 4 slots (order, descriptors, counter) + one operation", "excluded_input": "counter within reach of INT_MAX" if excl else None},
-                      targets=["liberasurecode_backend_instance_register", "liberasurecode_backend_instance_unregister", "liberasurecode_backend_alloc_desc", "liberasurecode_backend_instance_get_by_desc"]))
-    presets = range(7)
-    depth = 3 if not thorough else 5
-    for p in presets:
-        obs.append(Ob(id=f"api-history-d{depth}-preset{p}", harness="c14_api.c", defs=dict(DEPTH=depth, PRESET=p), units=RU, unwind=8,
-                      unwindset={"liberasurecode_backend_alloc_desc.0": 8, "crc32.0": 84, "crc32.1": 84}, timeout=2400, mem_gb=12,
-                      sample={"symbolic": f"{depth} x (operation in create/destroy/use/failed-create, slot), data bytes", "counter_preset": ["0", "1", "INT_MAX-2", "INT_MAX-1", "INT_MAX", "INT_MIN", "-1"][p]},
-                      targets=["liberasurecode_instance_create", "liberasurecode_instance_destroy", "liberasurecode_encode", "rs_galois_init_tables", "rs_galois_deinit_tables"]))
+                      timeout=1800, mem_gb=10, sample={"symbolic": f"counter start value, {depth} x (operation, slot, lookup key)", "slots": 3, "excluded_input": "counter within reach of INT_MAX" if excl else None}, targets=T))
+        for n in range(0, 4):
+            for perm in itertools.permutations(range(3), n):
+                defs = dict(INDUCTIVE=None, DEPTH=1, SLOTS=3, ORD="".join(f"{x}," for x in perm))
+                if excl: defs["EXCL_WRAP"] = None
+                obs.append(Ob(id="registry-inductive-" + ("".join(map(str, perm)) or "empty") + ("-excl-wrap" if excl else ""), harness="c14.c", defs=defs, units=RU, unwind=8,
+                              unwindset={"liberasurecode_backend_alloc_desc.0": 8}, timeout=1200, mem_gb=4,
+                              sample={"symbolic": "descriptors of the live instances, counter, one operation (kind, slot, lookup key)", "list_order": list(perm), "excluded_input": "counter within reach of INT_MAX" if excl else None}, targets=T))
+    C0, C1, C2, D0, D1, D2, U0, U1, U2, F0, F1 = 0, 1, 2, 10, 11, 12, 20, 21, 22, 30, 31
+    seqs = [[C0, C1, D0, U1], [C0, C1, D1, U0], [C1, C0, D1, U0, D0], [C0, D0, C1, U1], [C0, C2, D0, U2], [C2, C0, D2, U0], [C0, F0, U0], [F1, C0, U0], [C0, F1, C1, D0, U1],
+            [C0, C1, D0, D1, C1, U1], [C0, D0, C0, U0], [C0, C1, C2, D1, U0, U2]]
+    if thorough:
+        seqs += [[C0, C1, C2, D0, D1, D2, C2, C1, U1, U2], [C1, D1, C1, D1, C0, U0], [C0, C1, U0, U1, D0, U1, C0, U0, D1, U0], [F0, F1, C2, F0, U2, C0, F1, U0]]
+    pres = ["0", "1", "INT_MAX-2", "INT_MAX-1", "INT_MAX", "INT_MIN", "-1"]
+    for i, sq in enumerate(seqs):
+        for p in ([0] if i >= 3 else range(7)):
+            obs.append(Ob(id=f"api-seq{i}-preset{p}", harness="c14_api.c", defs=dict(SEQ=",".join(map(str, sq)), PRESET=p), units=RU, unwind=12,
+                          unwindset={"liberasurecode_backend_alloc_desc.0": 8, "crc32.0": 84, "crc32.1": 84, "main.0": 14}, timeout=1500, mem_gb=4,
+                          sample={"history": sq, "encoding": "0-2 create slot, 10-12 destroy, 20-22 use, 30/31 failing create", "symbolic": "data bytes of every use", "counter_preset": pres[p]},
+                          targets=["liberasurecode_instance_create", "liberasurecode_instance_destroy", "liberasurecode_encode", "rs_galois_init_tables", "rs_galois_deinit_tables"]))
     return {"obs": obs,
-            "assumptions": ["registry harness: typed static instances, no heap; API harness: histories of depth 3 (quick) / 5 (thorough) over 3 slots; longer histories rest on the inductive registry step",
+            "assumptions": ["registry harness: typed static instances, no heap; API harness: 12 (quick) / 16 (thorough) enumerated histories over 3 slots (2 RS instances sharing the GF tables + 1 flat-XOR), the first three under all 7 counter presets; arbitrary histories rest on the symbolic registry history and the inductive registry step",
                             "GF arithmetic contract-replaced; table life cycle is the real rs_galois_init/deinit_tables (fill loop shrunk, see gen_galois)"],
             "trusted": ENV_TRUST + GF_TRUST}
